@@ -136,11 +136,26 @@ CLAIMED = {
         "note": COMMON_TRUST + "Bounded by string length; core::fmt::write is executed.",
         "design_ref": "DESIGN.md §4 C23, §9",
     },
+    "C08": {
+        "category": "proof",
+        "technique": TECH_KANI,
+        "text": "Reduced to the scalar variants of Value (U8, Bool, I16, U16, I32, U32, I64, U64, F64), where every law is a complete proof over "
+                "ALL payloads (one unit per variant and per pair of variants, concrete discriminants, symbolic payloads): == symmetric; cmp "
+                "antisymmetric; cmp == Equal iff ==; == implies equal hashes through an arbitrary (harness-local) Hasher, including +0.0/-0.0; "
+                "partial_cmp agrees with cmp; reflexivity; try_clone / try_to_owned preserve ==, hash and the reported signature; the reported "
+                "signature is the D-Bus type code of the variant; T -> Value -> T returns the original bit pattern. The NaN clauses are split "
+                "off and are two recorded known findings (Value::F64(NaN) != itself while cmp says Equal). Quick tier: 9 same-variant units, 9 "
+                "single-variant units, 5 cross pairs; thorough: all 36 unordered pairs. NOT covered: Str/Signature/ObjectPath payloads, container "
+                "values (Array, Dict, Structure, Value(Box), Maybe, Fd) -- they allocate and recurse, out of CBMC's reach -- and transitivity "
+                "(triples). The property's quantifier over arbitrary nested trees is therefore decided only at the scalar leaves.",
+        "note": COMMON_TRUST + "Two known findings (NaN) are listed in known_findings.txt and excluded from the obligation count. The Hasher used is a "
+                "harness-local FNV variant: the law is stated over the sequence of write calls, so it holds for every Hasher.",
+        "design_ref": "DESIGN.md §4 C08, §10",
+    },
 }
 
 # designed (DESIGN.md §4) but the units are not built: listed under not_applicable with that reason
 NOT_BUILT = {
     "C05": "designed in DESIGN.md §4 (GVariant mechanisms under --features gvariant) but the units are not built; not claimed",
     "C06": "parser acceptance is out of reach (recursive winnow grammar does not finish at N<=4 under CBMC, Verus cannot process it); the formatting/length/equality units designed in DESIGN.md §4 are not built; not claimed",
-    "C08": "designed in DESIGN.md §4 (one harness per pair of scalar Value variants) but the units are not built; container values are out of reach (allocation + recursion); not claimed",
 }
